@@ -1,9 +1,11 @@
 (* C11 - Connection validation and group scoping.  Model: Static/Groups.v (SimGroup, group_path,
-   connect_interval) and Static/Connect.v (World.connect_one); tie: correspondence of the extracted model with
-   World.connect on every placement of two simulators in a group tree x all flag combinations. *)
+   connect_interval) and Static/Connect.v (World.connect_one); tie: (a) scenario.connect_interval is translated from the
+   source on every run (Gen/ConnectInterval.v) and proved equal to the specification on all arguments
+   (C11_generated_connect_interval_is_the_model); (b) correspondence of the extracted model with World.connect on every
+   placement of two simulators in a group tree x all flag combinations. *)
 From Coq Require Import ZArith List Bool Arith.
 Import ListNotations.
-From MV Require Import Time.Spec Static.Groups Static.GroupsP Static.Connect Static.ConnectP.
+From MV Require Import Time.Spec Time.Tie Static.Groups Static.GroupsP Static.Connect Static.ConnectP Static.ConnTie.
 
 (* connect_one raises ScenarioError exactly in the four documented cases; it never fails in any other way *)
 Theorem C11_rejection_exact : forall gt, wfGb gt = true -> forall sg dg f, (sg < length gt)%nat -> (dg < length gt)%nat ->
@@ -62,3 +64,11 @@ Example C11_nonvacuous :
   is_rejected (connect_one gt 1 2 (mkF true true false true false 0 true false true)) = true /\
   is_rejected (connect_one gt 3 1 (mkF true true false true false 0 true false true)) = false.
 Proof. vm_compute. repeat split; reflexivity. Qed.
+
+(* the delay computation the theorems above speak about IS what scenario.connect_interval computes: the function
+   generated from the source equals the specification on every group table, pair of groups, time shift and weak flag
+   (errors included) *)
+Theorem C11_generated_connect_interval_is_the_model : forall gt sg dg ts w,
+  cmap to_spec (MV.Gen.ConnectInterval.connect_interval gt sg dg ts w) = MV.Static.Groups.connect_interval gt sg dg ts w.
+Proof. exact tie_connect_interval. Qed.
+Print Assumptions C11_generated_connect_interval_is_the_model.
